@@ -56,6 +56,12 @@ theorem flowModTable_none {c : Nat} (h : 5 ≤ c) : flowModTable.lookup c = none
     simp [flowModTable] at this
     omega
 
+theorem flowModTable_add_le {c : Nat} {h : FlowModH} (hl : flowModTable.lookup c = some h)
+    (hh : h = .add ∨ h = .modify ∨ h = .modifyStrict) : c ≤ 2 := by
+  have := lookup_mem hl
+  simp [flowModTable] at this
+  rcases hh with rfl | rfl | rfl <;> simp at this <;> omega
+
 theorem flowModTable_some {c : Nat} (h : c ≤ 4) : ∃ hd, flowModTable.lookup c = some hd := by
   have : c = 0 ∨ c = 1 ∨ c = 2 ∨ c = 3 ∨ c = 4 := by omega
   rcases this with rfl | rfl | rfl | rfl | rfl <;> exact ⟨_, rfl⟩
@@ -213,7 +219,7 @@ theorem rxPacketOut_ok (s : SwitchState) (xid : Nat) (b : Option Nat) (d : Bool)
 theorem flowModAdd_out (s : SwitchState) (xid command : Nat) (mk : MKey) (prio cookie flags idle hard : Nat) (acts : List Act) :
     (flowModAdd s xid command mk prio cookie flags idle hard acts).2 = [] ∨
     ∃ c, (flowModAdd s xid command mk prio cookie flags idle hard acts).2 = [.error xid OFPET_FLOW_MOD_FAILED c] ∧
-      (hasBit flags OFPFF_EMERG = true ∨ hasBit flags OFPFF_CHECK_OVERLAP = true ∨
+      (hasBit flags OFPFF_EMERG = true ∨ (hasBit flags OFPFF_CHECK_OVERLAP = true ∧ checkOverlap prio mk s.table = true) ∨
         s.maxEntries ≤ (flowModAdd s xid command mk prio cookie flags idle hard acts).1.table.length) := by
   unfold flowModAdd
   split
@@ -226,7 +232,7 @@ theorem flowModAdd_out (s : SwitchState) (xid command : Nat) (mk : MKey) (prio c
   · split
     · rename_i ho
       simp only [Bool.and_eq_true] at ho
-      exact .inr ⟨_, rfl, .inr (.inl ho.1)⟩
+      exact .inr ⟨_, rfl, .inr (.inl ho)⟩
     · simp only
       split
       · rename_i hf
@@ -237,7 +243,7 @@ theorem flowModModify_out (strict : Bool) (s : SwitchState) (xid command : Nat) 
     (acts : List Act) :
     (flowModModify strict s xid command mk prio cookie flags idle hard acts).2 = [] ∨
     ∃ c, (flowModModify strict s xid command mk prio cookie flags idle hard acts).2 = [.error xid OFPET_FLOW_MOD_FAILED c] ∧
-      (hasBit flags OFPFF_EMERG = true ∨ hasBit flags OFPFF_CHECK_OVERLAP = true ∨
+      (hasBit flags OFPFF_EMERG = true ∨ (hasBit flags OFPFF_CHECK_OVERLAP = true ∧ checkOverlap prio mk s.table = true) ∨
         s.maxEntries ≤ (flowModModify strict s xid command mk prio cookie flags idle hard acts).1.table.length) := by
   unfold flowModModify
   split
@@ -365,48 +371,114 @@ theorem rxPortMod_out (s : SwitchState) (xid portNo hw config mask : Nat) :
     · simp only [List.mem_singleton] at hr; exact .inr ⟨_, _, hr⟩
     · exact .inl (portModBits_async _ _ _ _ r hr)
 
-/-! ### statistics -/
+/-! ### statistics: multipart replies -/
 
-/-- for a body of the class the decoder chose, the stats handler never fails -/
-theorem rxStats_total (s : SwitchState) (xid : Nat) (req : StatsReq) (hwf : ∀ t, req = .other t → 6 ≤ t) :
-    ∃ r, rxStats s xid req = .ok (s, [r]) ∧ r.xid? = some xid ∧ r.isAsync = false := by
-  cases req with
-  | desc => exact ⟨_, rfl, by rfl, by rfl⟩
-  | table => exact ⟨_, rfl, by rfl, by rfl⟩
-  | flow mk tid op =>
-    have hl : statsTable.lookup (StatsReq.flow mk tid op).stype = some .flow := rfl
-    unfold rxStats; rw [hl]; simp only [runStats]
-    by_cases hc : tid ≠ TABLE_ALL ∧ tid ≠ 0
-    · rw [if_pos hc]; exact ⟨_, rfl, by rfl, by rfl⟩
-    · rw [if_neg hc]; exact ⟨_, rfl, by rfl, by rfl⟩
-  | aggregate mk tid op =>
-    have hl : statsTable.lookup (StatsReq.aggregate mk tid op).stype = some .aggregate := rfl
-    unfold rxStats; rw [hl]; simp only [runStats]
-    by_cases hc : tid ≠ TABLE_ALL ∧ tid ≠ 0
-    · rw [if_pos hc]; exact ⟨_, rfl, by rfl, by rfl⟩
-    · rw [if_neg hc]; exact ⟨_, rfl, by rfl, by rfl⟩
-  | port p =>
-    have hl : statsTable.lookup (StatsReq.port p).stype = some .port := rfl
-    unfold rxStats; rw [hl]; simp only [runStats]
-    by_cases hc : p = OFPP_NONE
-    · rw [if_pos hc]; exact ⟨_, rfl, by rfl, by rfl⟩
-    · rw [if_neg hc]
-      by_cases hd : (!s.portStats.contains p) = true
-      · rw [if_pos hd]; exact ⟨_, rfl, by rfl, by rfl⟩
-      · rw [if_neg hd]; exact ⟨_, rfl, by rfl, by rfl⟩
-  | queue p q =>
-    have hl : statsTable.lookup (StatsReq.queue p q).stype = some .queue := rfl
-    unfold rxStats; rw [hl]; simp only [runStats]
-    by_cases hc : p ≠ OFPP_ALL ∧ (!knownPort s p) = true
-    · rw [if_pos hc]; exact ⟨_, rfl, by rfl, by rfl⟩
-    · rw [if_neg hc]
-      by_cases hd : q = OFPQ_ALL
-      · rw [if_pos hd]; exact ⟨_, rfl, by rfl, by rfl⟩
-      · rw [if_neg hd]; exact ⟨_, rfl, by rfl, by rfl⟩
-  | other t =>
-    have := statsTable_none (hwf t rfl)
-    simp only [rxStats, StatsReq.stype, this]
-    exact ⟨_, rfl, by rfl, by rfl⟩
+/-- a complete multipart answer to request `x` of type `t` with bodies `bs`: at least one part, every part a stats reply
+with the request's xid and type, OFPSF_REPLY_MORE on all parts but the last -/
+inductive Multipart (x t : Nat) : List Reply → List StatsBody → Prop
+  | last (b : StatsBody) : Multipart x t [.statsReply x t false b] [b]
+  | more (b : StatsBody) {rs : List Reply} {bs : List StatsBody} :
+      Multipart x t rs bs → Multipart x t (.statsReply x t true b :: rs) (b :: bs)
+
+theorem markParts_multipart (x t : Nat) {bs : List StatsBody} (h : bs ≠ []) : Multipart x t (markParts x t bs) bs := by
+  induction bs with
+  | nil => exact absurd rfl h
+  | cons b r ih =>
+    cases r with
+    | nil => exact .last b
+    | cons c r' =>
+      have : markParts x t (b :: c :: r') = .statsReply x t true b :: markParts x t (c :: r') := rfl
+      rw [this]
+      exact .more b (ih (by simp))
+
+theorem Multipart.all {x t : Nat} {g : List Reply} {bs : List StatsBody} (h : Multipart x t g bs) :
+    g ≠ [] ∧ ∀ r ∈ g, r.xid? = some x ∧ r.isAsync = false := by
+  induction h with
+  | last b => exact ⟨by simp, by intro r hr; simp only [List.mem_singleton] at hr; subst hr; exact ⟨rfl, rfl⟩⟩
+  | more b _ ih =>
+    refine ⟨by simp, ?_⟩
+    intro r hr
+    rcases List.mem_cons.mp hr with rfl | hr'
+    · exact ⟨rfl, rfl⟩
+    · exact ih.2 r hr'
+
+theorem splitGo_flatten {α} (size : α → Nat) (l cur : List α) (sz : Nat) :
+    (splitGo size l cur sz).flatten = cur.reverse ++ l := by
+  induction l generalizing cur sz with
+  | nil => simp [splitGo]
+  | cons e r ih =>
+    unfold splitGo
+    split
+    · simp [ih]
+    · rw [ih]; simp
+
+/-- the parts, put together again, are the list that was split -/
+theorem splitParts_flatten {α} (size : α → Nat) (l : List α) : (splitParts size l).flatten = l := by
+  simp [splitParts, splitGo_flatten]
+
+theorem splitGo_ne {α} (size : α → Nat) (l cur : List α) (sz : Nat) : splitGo size l cur sz ≠ [] := by
+  induction l generalizing cur sz with
+  | nil => simp [splitGo]
+  | cons e r ih =>
+    unfold splitGo
+    split
+    · simp
+    · exact ih _ _
+
+theorem splitParts_ne {α} (size : α → Nat) (l : List α) : splitParts size l ≠ [] := splitGo_ne size l [] 0
+
+theorem splitGo_fit {α} (size : α → Nat) (l cur : List α) (sz : Nat) (hsz : sz = (cur.map size).sum) (hcur : sz ≤ partLimit)
+    (hl : ∀ e ∈ l, size e ≤ partLimit) : ∀ p ∈ splitGo size l cur sz, (p.map size).sum ≤ partLimit := by
+  induction l generalizing cur sz with
+  | nil =>
+    intro p hp
+    simp only [splitGo, List.mem_singleton] at hp
+    subst hp
+    rw [List.map_reverse, List.sum_reverse, ← hsz]; exact hcur
+  | cons e r ih =>
+    have he := hl e List.mem_cons_self
+    have hr : ∀ x ∈ r, size x ≤ partLimit := fun x hx => hl x (List.mem_cons_of_mem _ hx)
+    unfold splitGo
+    split
+    · intro p hp
+      rcases List.mem_cons.mp hp with rfl | hp'
+      · rw [List.map_reverse, List.sum_reverse, ← hsz]; exact hcur
+      · exact ih [e] (size e) (by simp) he hr p hp'
+    · rename_i hc
+      refine ih (e :: cur) (sz + size e) (by simp [hsz]; omega) ?_ hr
+      by_cases hgt : sz + size e > partLimit
+      · have : cur = [] := by
+          cases cur with
+          | nil => rfl
+          | cons a t => exact absurd ⟨hgt, by simp⟩ hc
+        subst this
+        simp at hsz; subst hsz; simpa using he
+      · omega
+
+/-- every part fits into one message when every single entry does -/
+theorem splitParts_fit {α} (size : α → Nat) (l : List α) (hl : ∀ e ∈ l, size e ≤ partLimit) :
+    ∀ p ∈ splitParts size l, (p.map size).sum ≤ partLimit :=
+  splitGo_fit size l [] 0 rfl (Nat.zero_le _) hl
+
+/-- a statistics request changes nothing -/
+theorem rxStats_state {s s' : SwitchState} {xid : Nat} {req : StatsReq} {o : List Reply} (h : rxStats s xid req = .ok (s', o)) : s' = s := by
+  unfold rxStats at h
+  cases hl : statsTable.lookup req.stype with
+  | none => rw [hl] at h; simp only at h; injection h with h; injection h with h1 _; exact h1.symm
+  | some hd =>
+    rw [hl] at h; simp only at h
+    cases hr : runStats hd s xid req with
+    | error e => rw [hr] at h; cases h
+    | ok r =>
+      obtain ⟨errs, body⟩ := r
+      rw [hr] at h
+      cases body with
+      | none => simp only at h; injection h with h; injection h with h1 _; exact h1.symm
+      | some bd =>
+        simp only at h
+        split at h
+        · injection h with h; injection h with h1 _; exact h1.symm
+        · cases h
 
 /-! ### sequences -/
 
@@ -454,7 +526,7 @@ structure Fixed where
   maxEntries : Nat
   caps : Nat
   actionBits : Nat
-  portStats : List Nat
+  portStats : List PortCtr
   lookupCount : Nat
   matchedCount : Nat
   configFlags : Nat
@@ -594,22 +666,6 @@ theorem rxFlowMod_fixed {s s' : SwitchState} {xid command : Nat} {mk : MKey} {pr
         rw [processFromBuffer_fixed xid acts id hp]
         exact runFlowMod_fixed hd s xid command mk prio cookie flags idle hard outPort acts
 
-/-- a statistics request changes nothing -/
-theorem rxStats_state {s s' : SwitchState} {xid : Nat} {req : StatsReq} {o : List Reply} (h : rxStats s xid req = .ok (s', o)) : s' = s := by
-  unfold rxStats at h
-  cases hl : statsTable.lookup req.stype with
-  | none => rw [hl] at h; simp only at h; injection h with h; injection h with h1 _; exact h1.symm
-  | some hd =>
-    rw [hl] at h; simp only at h
-    cases hr : runStats hd s xid req with
-    | error e => rw [hr] at h; cases h
-    | ok r =>
-      obtain ⟨errs, body⟩ := r
-      rw [hr] at h
-      cases body with
-      | none => simp only at h; injection h with h; injection h with h1 _; exact h1.symm
-      | some bd => simp only at h; injection h with h; injection h with h1 _; exact h1.symm
-
 /-- port number and hardware address of a port never change -/
 theorem setPortConfigBit_key (p : Port) (bit value : Nat) :
     (setPortConfigBit p bit value).1.no = p.no ∧ (setPortConfigBit p bit value).1.hw = p.hw := by
@@ -683,5 +739,185 @@ theorem rxPortMod_cfg (s : SwitchState) (xid portNo hw config mask : Nat) :
   unfold rxPortMod
   repeat' (first | split | dsimp only)
   all_goals exact ⟨rfl, rfl⟩
+
+/-! #### the packet paths leave the flow table alone -/
+
+theorem bufferPacket_table (s : SwitchState) : (bufferPacket s).1.table = s.table := by
+  unfold bufferPacket
+  repeat' (first | split | dsimp only)
+  all_goals rfl
+
+theorem outputPacket_table {s s' : SwitchState} {port : Nat} {o : List Reply} (h : outputPacket s port = .ok (s', o)) :
+    s'.table = s.table := by
+  unfold outputPacket at h
+  repeat' split at h
+  all_goals first
+    | (injection h with h; injection h with h1 _; subst h1; first | rfl | exact bufferPacket_table s)
+    | (cases h)
+
+theorem processActions_table (xid : Nat) (acts : List Act) {s s' : SwitchState} {o : List Reply}
+    (h : processActions xid s acts = .ok (s', o)) : s'.table = s.table := by
+  induction acts generalizing s o with
+  | nil =>
+    simp only [processActions] at h
+    injection h with h; injection h with h1 _; subst h1; rfl
+  | cons a rest ih =>
+    unfold processActions at h
+    cases hl : actionTable.lookup a.ty with
+    | none =>
+      rw [hl] at h; simp only at h
+      injection h with h; injection h with h1 _; subst h1; rfl
+    | some ah =>
+      rw [hl] at h
+      cases ah with
+      | output =>
+        simp only at h
+        cases ho : outputPacket s a.port with
+        | error e => rw [ho] at h; cases h
+        | ok r1 =>
+          obtain ⟨s1, o1⟩ := r1
+          rw [ho] at h; simp only at h
+          cases hp : processActions xid s1 rest with
+          | error e => rw [hp] at h; cases h
+          | ok r2 =>
+            obtain ⟨s2, o2⟩ := r2
+            rw [hp] at h; simp only at h
+            injection h with h; injection h with h1 _; subst h1
+            rw [ih hp, outputPacket_table ho]
+      | enqueue => simp only at h; cases h
+      | setVlanVid => exact ih h
+      | setVlanPcp => exact ih h
+      | stripVlan => exact ih h
+      | setDlSrc => exact ih h
+      | setDlDst => exact ih h
+      | setNwSrc => exact ih h
+      | setNwDst => exact ih h
+      | setNwTos => exact ih h
+      | setTpSrc => exact ih h
+      | setTpDst => exact ih h
+
+theorem processFromBuffer_table (xid : Nat) (acts : List Act) (id : Nat) {s s' : SwitchState} {o : List Reply}
+    (h : processFromBuffer xid s acts id = .ok (s', o)) : s'.table = s.table := by
+  unfold processFromBuffer at h
+  split at h
+  · injection h with h; injection h with h1 _; subst h1; rfl
+  split at h
+  · split at h
+    · cases hp : processActions xid s acts with
+      | error e => rw [hp] at h; cases h
+      | ok r =>
+        obtain ⟨s1, o1⟩ := r
+        rw [hp] at h; simp only at h
+        injection h with h; injection h with h1 _; subst h1
+        have h2 : s1.table = s.table := processActions_table xid acts hp
+        exact h2
+    · injection h with h; injection h with h1 _; subst h1; rfl
+  · injection h with h; injection h with h1 _; subst h1; rfl
+
+theorem rxPacketOut_table {s s' : SwitchState} {xid : Nat} {b : Option Nat} {d : Bool} {acts : List Act} {o : List Reply}
+    (h : rxPacketOut s xid b d acts = .ok (s', o)) : s'.table = s.table := by
+  unfold rxPacketOut at h
+  split at h
+  · exact processActions_table xid acts h
+  · cases b with
+    | none => simp only at h; injection h with h; injection h with h1 _; subst h1; rfl
+    | some id => exact processFromBuffer_table xid acts id h
+
+
+/-! #### every table entry can be reported: its `ofp_flow_stats` encoding fits into one message part -/
+
+def FlowsFit (s : SwitchState) : Prop := ∀ f ∈ s.table, flowEntryLen f ≤ partLimit
+
+theorem mem_addEntry {e x : Flow} {t : List Flow} (h : x ∈ addEntry e t) : x = e ∨ x ∈ t := by
+  induction t with
+  | nil => simp only [addEntry, List.mem_singleton] at h; exact .inl h
+  | cons y r ih =>
+    unfold addEntry at h
+    split at h
+    · rcases List.mem_cons.mp h with h1 | h1
+      · exact .inl h1
+      · exact .inr h1
+    · rcases List.mem_cons.mp h with h1 | h1
+      · exact .inr (h1 ▸ List.mem_cons_self)
+      · rcases ih h1 with h2 | h2
+        · exact .inl h2
+        · exact .inr (List.mem_cons_of_mem _ h2)
+
+theorem runFlowMod_fit (h : FlowModH) (s : SwitchState) (xid command : Nat) (mk : MKey) (prio cookie flags idle hard outPort : Nat)
+    (acts : List Act) (ha : 88 + actsLenOf acts ≤ partLimit) (hs : FlowsFit s) :
+    FlowsFit (runFlowMod h s xid command mk prio cookie flags idle hard outPort acts).1 := by
+  have htfa : ∀ x ∈ tableForAdd command s.table mk prio, flowEntryLen x ≤ partLimit := by
+    intro x hx
+    unfold tableForAdd at hx
+    split at hx
+    · exact hs x ((List.mem_filter.mp hx).1)
+    · exact hs x hx
+  have hadd : FlowsFit (flowModAdd s xid command mk prio cookie flags idle hard acts).1 := by
+    unfold flowModAdd
+    repeat' (first | split | dsimp only)
+    all_goals first
+      | exact hs
+      | (intro x hx; exact htfa x hx)
+      | (intro x hx
+         rcases mem_addEntry hx with rfl | h2
+         · exact ha
+         · exact htfa x h2)
+  have hmod : ∀ st, FlowsFit (flowModModify st s xid command mk prio cookie flags idle hard acts).1 := by
+    intro st
+    unfold flowModModify
+    split
+    · intro x hx
+      simp only [List.mem_map] at hx
+      obtain ⟨e, he, rfl⟩ := hx
+      split
+      · exact ha
+      · exact hs e he
+    · exact hadd
+  have hdel : ∀ st, FlowsFit (flowModDelete st s mk prio outPort).1 := by
+    intro st x hx
+    simp only [flowModDelete] at hx
+    exact hs x ((List.mem_filter.mp hx).1)
+  cases h with
+  | add => exact hadd
+  | modify => exact hmod false
+  | modifyStrict => exact hmod true
+  | delete => exact hdel false
+  | deleteStrict => exact hdel true
+
+theorem rxFlowMod_fit {s s' : SwitchState} {xid command : Nat} {mk : MKey} {prio cookie flags idle hard outPort : Nat}
+    {b : Option Nat} {acts : List Act} {o : List Reply} (ha : 88 + actsLenOf acts ≤ partLimit) (hs : FlowsFit s)
+    (h : rxFlowMod s xid command mk prio cookie flags idle hard outPort b acts = .ok (s', o)) : FlowsFit s' := by
+  unfold rxFlowMod at h
+  cases hl : flowModTable.lookup command with
+  | none => rw [hl] at h; simp only at h; injection h with h; injection h with h1 _; subst h1; exact hs
+  | some hd =>
+    rw [hl] at h; simp only at h
+    have hf := runFlowMod_fit hd s xid command mk prio cookie flags idle hard outPort acts ha hs
+    cases b with
+    | none =>
+      simp only at h
+      injection h with h
+      rw [h] at hf
+      exact hf
+    | some id =>
+      simp only at h
+      cases hp : processFromBuffer xid (runFlowMod hd s xid command mk prio cookie flags idle hard outPort acts).1 acts id with
+      | error e => rw [hp] at h; cases h
+      | ok r =>
+        obtain ⟨s2, o2⟩ := r
+        rw [hp] at h; simp only at h
+        injection h with h; injection h with h1 _; subst h1
+        intro x hx
+        rw [processFromBuffer_table xid acts id hp] at hx
+        exact hf x hx
+
+theorem rxPortMod_table (s : SwitchState) (xid portNo hw config mask : Nat) :
+    (rxPortMod s xid portNo hw config mask).1.table = s.table := by
+  unfold rxPortMod
+  repeat' (first | split | dsimp only)
+  all_goals rfl
+
+theorem rxHello_table (s : SwitchState) : (rxHello s).1.table = s.table := by
+  unfold rxHello; split <;> rfl
 
 end Pox.SwitchReq
